@@ -32,6 +32,7 @@ type ClientReq struct {
 	Method string
 	Params string // raw JSON, "" for none
 	Raw    string // if set, sent verbatim instead of a request object
+	ID     int    // request id to use instead of the next sequential one (0 = sequential)
 	Sync   bool   // only enabled once all earlier requests of the connection are answered
 	Phase  int    // default order: lower phases first (across connections and threads)
 	When   func(w *World) bool
@@ -696,8 +697,15 @@ func (w *World) send(c *Conn, rq ClientReq) {
 		c.VC.Inject([]byte(rq.Raw))
 		return
 	}
+	// {c1}, {c2}, ... in a method stand for the literal id of that connection
+	for i, o := range w.Conns {
+		rq.Method = strings.ReplaceAll(rq.Method, fmt.Sprintf("{c%d}", i+1), o.CID)
+	}
 	id := c.nextID
 	c.nextID++
+	if rq.ID != 0 {
+		id = rq.ID
+	}
 	c.Client.Sent(id, rq.Method, rq.Params, w.time)
 	var frame string
 	if rq.Params != "" {
